@@ -16,7 +16,7 @@ EXPLAINED = {
 
 class C02(Property):
     id = "C02"
-    lean_module = "RosuModel.Props.C02All"   # imports Props/C02Slider.lean, Props/C02Timing.lean, Props/C02Codec.lean (which import Props/C02.lean), Props/C02File.lean and Props/C02Decoded.lean; all in namespace Rosu.C02
+    lean_module = "RosuModel.Props.C02All"   # imports Props/C02Slider.lean, Props/C02Timing.lean, Props/C02Codec.lean (which import Props/C02.lean), Props/C02File.lean, Props/C02Decoded.lean, Props/C02CodecIeee.lean (all in namespace Rosu.C02) and Props/IeeeFalse.lean (namespace Rosu.IeeeFalse)
     theorem_modules = ['RosuModel.Props.C02All', 'RosuModel.Props.C02CodecIeee', ('RosuModel.Props.IeeeFalse', 'Rosu.IeeeFalse')]   # files whose top-level theorems are all audited
     namespace = "Rosu.C02"
     design_ref = "5.2"
@@ -33,6 +33,10 @@ class C02(Property):
                          "codecLaws_float", "codecLaws_float32", "editor_block_roundtrip_ieee", "difficulty_block_roundtrip_ieee",
                          "events_block_roundtrip_ieee", "printBits_intBits_f64", "printBits_of_int_value", "intPrintLaw_float",
                          "general_block_roundtrip_ieee",
+                         # Props/C02CodecIeee.lean: the runtime hypotheses discharged (Lean 4.33: Float is a structure over Float.Model)
+                         "floatBitsLaw", "float32BitsLaw", "floatOfIntLaw", "float_ofInt_bits", "codecLaws_float_ieee", "codecLaws_float32_ieee",
+                         "intPrintLaw_float_ieee", "editor_block_roundtrip_ieee'", "difficulty_block_roundtrip_ieee'",
+                         "events_block_roundtrip_ieee'", "general_block_roundtrip_ieee'",
                          "roundtrip_rep_partial", "roundtrip_rep_counts", "toyMap_timeline_hyps",
                          "records_roundtrip_decoded", "records_roundtrip_decoded_of_limitRep"]
     partial_theorems = {
@@ -43,10 +47,16 @@ class C02(Property):
             "for every non-NaN binary32 / binary64 bit pattern (parseBits_printBits_f32 / _f64: signs, zeros, infinities, subnormals, normals; via roundRat_of_inInterval / roundRat_spec — correct rounding, "
             "ties to even, underflow to 0, overflow to infinity: roundRat f x = b iff x lies in the rounding interval of b — and shortestDigits_inInterval), printBits_clean, printBits_ne_nil. For the driver's Float / Float32 instances this gives CodecLaws on the non-NaN values "
             "(codecLaws_float / codecLaws_float32, and editor_ / difficulty_ / events_block_roundtrip_ieee) from ONE hypothesis each, FloatBitsLaw / Float32BitsLaw "
-            "(ofBits (toBits x) = x and toBits x is not a NaN pattern, for non-NaN x): Lean's Float is opaque to the kernel, so this statement about the runtime's bit casts cannot be proved; "
-            "it is exercised by the codec differential. IntPrintLaw (AudioLeadIn) is proved at the bit level too: every integer z with |z| < 2^53 prints as intDigits z "
+            "(ofBits (toBits x) = x and toBits x is not a NaN pattern, for non-NaN x). These hypotheses are now THEOREMS (Props/C02CodecIeee.lean): in Lean 4.33 Float / Float32 are structures "
+            "over the logical model Float.Model and ofBits / toBits / isNaN unfold in the kernel; Lemmas/FloatModelBits.lean proves the pack / unpack theory of that model (FM.float_ofBits_toBits, "
+            "FM.float_not_nan_pattern and the Float32 twins), giving floatBitsLaw : FloatBitsLaw and float32BitsLaw : Float32BitsLaw, hence codecLaws_float_ieee / codecLaws_float32_ieee "
+            "(CodecLaws for the driver's instances on the non-NaN values, no hypothesis) and editor_ / difficulty_ / events_block_roundtrip_ieee' (the section round trips with no bit-cast hypothesis left). "
+            "IntPrintLaw (AudioLeadIn) is proved at the bit level too: every integer z with |z| < 2^53 prints as intDigits z "
             "(printBits_intBits_f64, where intBits fmt64 z is the pattern roundRat / parseBits assigns to z; printBits_of_int_value for any integer-valued pattern), and IntPrintLaw Float "
-            "(intPrintLaw_float, general_block_roundtrip_ieee) follows from the runtime hypothesis FloatOfIntLaw (Float.ofInt z has that pattern on the i32 range). Still NOT proved: that shortestDigits returns the shortest / closest digits and never "
+            "(intPrintLaw_float, general_block_roundtrip_ieee) follows from FloatOfIntLaw (Float.ofInt z has that pattern on the i32 range), which is now a theorem as well: float_ofInt_bits "
+            "(Lemmas/FloatModelOfInt.lean: Float.ofInt z is exact in the model for |z| < 2^53 and has the pattern intBits fmt64 z), floatOfIntLaw, intPrintLaw_float_ieee, "
+            "general_block_roundtrip_ieee' — no hypothesis. These are theorems about Lean's logical float model; that the compiled @[extern] C operations agree with it is part of Lean's own "
+            "trusted code base and is exercised against Rust bit for bit (codec requests fop64 / fop32 and the casts of lib/codecgen.py, and every whole-model request). Still NOT proved: that shortestDigits returns the shortest / closest digits and never "
             "reaches its exact-expansion fallback (irrelevant for the round trip, relevant only for agreement with Rust); and that Rust's own Display/FromStr equal printBits/parseBits "
             "(recorded assumption, compared on >10^6 values per run by lib/codecgen.py). metadata_block_roundtrip and "
             "colours_block_roundtrip need no law (integers: int_display_parse is proved of the model's own i32/u32/u8 codec)",
@@ -98,8 +108,10 @@ class C02(Property):
             "RtTiming.RepTimingMap (see C04; a decoded map can violate it only through collected sample points at non-representable computed times)",
         "redundant_group_no_effect":
             "exact arithmetic only (RtTiming.EpsLaws: |a−b| < EPSILON iff a = b; instance: the integer toy scalar ZC with eps = 1): from a group's time up to the next control point the true "
-            "properties equal last_props after that group's iteration, whether its inherited line was written or suppressed. For IEEE doubles the law fails for non-finite values and for "
-            "distinct values closer than 2.2e-16 (possible below 2.0): there a suppressed line can change the effective velocity by less than EPSILON — not modelled",
+            "properties equal last_props after that group's iteration, whether its inherited line was written or suppressed. For IEEE doubles the law fails for non-finite values, for the two zeros and for "
+            "distinct values closer than 2.2e-16 (possible below 2.0): there a suppressed line can change the effective velocity by less than EPSILON — not modelled. That EpsLaws is false of the "
+            "driver's Float is itself a kernel-checked theorem (Props/IeeeFalse.lean, namespace Rosu.IeeeFalse: epsLaws_float_false on +0.0 / -0.0, epsLaws_refl_float_false on +inf), "
+            "so this theorem is vacuous on the IEEE instance",
         "timing_rt / timing_roundtrip_file":
             "layer 5 of DESIGN 5.2, proved in EXACT ARITHMETIC only: under RtTiming.EpsLaws (|a−b| < EPSILON iff a = b), GroupLaws (the decoder's grouping test |t−u| >= EPSILON likewise) and "
             "TimelineHyps (sorted collection; numerators >= 1; timing points with non-negative beat length inside [6, 60000]; every slider velocity — scroll speed in taiko/mania — and the "
@@ -107,13 +119,18 @@ class C02(Property):
             "C04.sampleMap) — the re-decoded map has the same timing points (time, beat length, signature, omit-first-bar-line, in order) and at every time the same effective slider "
             "velocity (difficulty_point_at; in taiko/mania the scroll speed of effect_point_at) and kiai flag. timing_roundtrip_file adds the codec laws and RepRecords / RepTimingMap and goes "
             "through encode, UTF-8 bytes, reader, framing, Beatmap decoder and finalisation. NOT covered: IEEE doubles (the laws fail: 100/(100/v) may be off by an ulp, values closer than "
-            "2.2e-16 exist below 2.0, inf−inf is NaN) — that is the ≤4 ulp slider-velocity drift the `rt` oracle measures; sample points (not part of the preserved view); the difficulty-"
+            "2.2e-16 exist below 2.0, inf−inf is NaN, +0.0 and −0.0 are closer than EPSILON and different) — that is the ≤4 ulp slider-velocity drift the `rt` oracle measures. The failure is "
+            "proved, not only said: Rosu.IeeeFalse.epsLaws_float_false and groupLaws_float_false (Props/IeeeFalse.lean) refute EpsLaws Float and GroupLaws Float in the kernel, so timing_rt / "
+            "timing_roundtrip_file are statements about exact arithmetic and vacuous on the IEEE instance (GroupLaws.same_refl alone is true of Float: C12.sameGroup_self_float). Also not covered: sample points (not part of the preserved view); the difficulty-"
             "point velocity in taiko/mania and the scroll speed elsewhere (the format carries one of the two)",
         "roundtrip_rep_partial / roundtrip_rep_counts":
             "the three lines of proof composed (Props/C02File.lean) into ONE statement about ONE decode of encode m, for maps satisfying RepMap (Lemmas/RepMap.lean = RtFile.RepRecords + "
             "RtTiming.RepTimingMap + every hit object SliderRt.RepObject) under MapLaws (CodecLaws for both float types, IntPrintLaw, SliderRt.CoordLaws) and, for the timing part, the "
             "exact-arithmetic laws EpsLaws / GroupLaws and TimelineHyps of the map's control points — all satisfiable together: C04.toyMap (toy codec; mania, two timing points, inherited "
-            "lines with scroll speeds 2 and 4 and kiai, a circle, a slider with a two-segment path, a spinner, a hold note). No shape assumption on the list blocks is left. Conclusion: "
+            "lines with scroll speeds 2 and 4 and kiai, a circle, a slider with a two-segment path, a spinner, a hold note). On the driver's Float / Float32 the codec part of MapLaws is now a theorem "
+            "(codecLaws_float_ieee, codecLaws_float32_ieee, intPrintLaw_float_ieee; CoordLaws is not instantiated for Float32), but EpsLaws Float and GroupLaws Float are refuted in the kernel "
+            "(Rosu.IeeeFalse.epsLaws_float_false, groupLaws_float_false): the timing part of this theorem is about exact arithmetic and vacuous on the IEEE instance. "
+            "No shape assumption on the list blocks is left. Conclusion: "
             "reading the UTF-8 bytes of the text back succeeds; the decoder state has the map's record fields (preserved view) and, BEFORE map-level processing, hit objects that are position "
             "by position what the line format carries of the map's (SliderRt.ObjsBack: same count and order; start times; circle: position, combo offset, new_combo or-ed with the forcing "
             "rule `first object or after a spinner`; slider: position, combo data, control points, repeat count, the written length as stored, node sample lists, velocity 1; spinner: "
@@ -126,7 +143,7 @@ class C02(Property):
             "timeline is equal by roundtrip_rep_partial, but finalizeObjects is not yet shown to read them only through it), sample defaults from the re-decoded sample points (outside the "
             "preserved view), forced new combos after breaks, the stable sort of an already chronological list; (b) that a DECODED map satisfies RepMap — false in general: F17 (typed point "
             "repeated at a segment start), F18 (node sample file names), F20 (computed length above the limit), sample points collected at non-finite computed times; (c) the timing round "
-            "trip for IEEE doubles (EpsLaws / GroupLaws fail there: the ≤4 ulp slider-velocity drift). These are evaluated on the implementation by the `rt` oracle "
+            "trip for IEEE doubles (EpsLaws / GroupLaws fail there — kernel-checked refutations in Props/IeeeFalse.lean — : the ≤4 ulp slider-velocity drift through 100/(100/sv)). These are evaluated on the implementation by the `rt` oracle "
             "(preserved view compared field by field, floats by bits, curves included, ≤4 ulp only for slider velocity) and on the model by the three-way `rt` correspondence "
             "(M1, text, M2 all identical between model and code)",
     }
@@ -143,7 +160,9 @@ class C02(Property):
                   "arithmetic (timing_rt, timing_roundtrip_file: same timing points, same effective slider velocity / scroll speed and kiai at every time — encoder group loop and redundancy "
                   "suppression against the decoder's pending groups, precedence and redundancy checks). Everything that prints floats is proved for every "
                   "lawful number codec; the model's own IEEE codec is proved lawful at the bit level (parse(print b) = b for every non-NaN f32/f64 pattern; printed numbers clean and non-empty) "
-                  "and the Float/Float32 instances are lawful given one bit-cast hypothesis about Lean's opaque runtime floats. "
+                  "and the driver's Float/Float32 instances are lawful with no hypothesis left (codecLaws_float_ieee, codecLaws_float32_ieee, intPrintLaw_float_ieee: in Lean 4.33 Float is a structure over the "
+                  "logical model Float.Model, so the bit-cast and Float.ofInt facts are theorems — floatBitsLaw, float32BitsLaw, floatOfIntLaw). The exact-arithmetic timing laws EpsLaws / GroupLaws are "
+                  "refuted for Float in the kernel (Props/IeeeFalse.lean): the timing round trip is a statement about exact arithmetic only. "
                   "File level, all parts in one statement about one decode (roundtrip_rep_partial): for a map satisfying RepMap, under the codec laws and exact timing arithmetic, the "
                   "re-decoded map has the map's record fields, timing points and effective velocity / kiai timelines, and its hit objects are the map-level processing of objects that are, line by line, "
                   "what the format carries of the map's objects (kinds, times, positions, combo data, control points, repeat counts, lengths). Not theorems: the map-level processing itself, and that a "
@@ -156,7 +175,10 @@ class C02(Property):
         "Lean 4.33.0 kernel; axioms ⊆ {propext, Classical.choice, Quot.sound} per #print axioms",
         "hand-written decode + encode models tied to /repo by the `rt` differential of this run",
         "number codec: the model's printBits/parseBits are proved mutually inverse on non-NaN patterns; that they equal Rust's Display/FromStr is tested (lib/codecgen.py), not proved; "
-        "FloatBitsLaw / Float32BitsLaw (bit casts of Lean's runtime Float) and FloatOfIntLaw (Float.ofInt on the i32 range) are hypotheses of codecLaws_float(32) / intPrintLaw_float, not provable in the kernel",
+        "FloatBitsLaw / Float32BitsLaw (bit casts) and FloatOfIntLaw (Float.ofInt on the i32 range) are theorems of Lean's logical float model Float.Model (floatBitsLaw, float32BitsLaw, floatOfIntLaw in Props/C02CodecIeee.lean), no longer hypotheses",
+        "a theorem about Float / Float32 is a theorem about Lean 4.33's logical model Float.Model; that the compiled @[extern] C operations agree with that model is part of Lean's own trusted code base "
+        "(compiler / runtime) and is additionally compared with Rust bit for bit: by the codec differential (lib/codecgen.py: requests fop64 / fop32 <add|sub|mul|div|sqrt|abs|neg|cmp|minmax> on operand pairs, "
+        "castf32f64, castf64f32, castf64i32, castf32i32, ceilf64, ceilf32, usizef64) and by every whole-model request of this run (`rt`)",
     ]
     assumptions = ["domain check (chronological object and accepted timing lines) is made on the implementation's own pre-sort objects and parser log",
                    "slider velocity (carried only through 100/(100/sv)) may drift by ≤ 4 ulp; reported in the OK line, larger drift fails"]
